@@ -20,12 +20,14 @@ func init() {
 			"entry modes of unexported helpers inherited from their call sites); the slice header Bloom.filter is assigned only while the object is under construction, so unlocked len() reads are race-free; " +
 			"the filter slice does not escape to callees. The field is unexported, so the package is the whole universe of accesses. " +
 			"A write whose value derives from a read of the filter sits in the same critical section as that read (no Unlock/RUnlock between them on any path): an atomicity violation loses a concurrent Add's bit although every access is locked. " +
+			"MayContain answers false only directly behind the test of a clear bit of the filter. " +
 			"Not decided (value-level): that MayContain tests exactly the bits Add sets (hash/index arithmetic).",
 		Run: runC31,
 	})
 }
 
 func runC31(c *core.Ctx) {
+	c31NegativeOnlyForAClearBit(c)
 	const pkg = "storage/bloom"
 	mu := c.P.Field(pkg, "Bloom", "mutex")
 	filter := c.P.Field(pkg, "Bloom", "filter")
@@ -184,4 +186,46 @@ func derivesFrom(v, root ssa.Value) bool {
 		}
 	}
 	return false
+}
+
+// c31NegativeOnlyForAClearBit: the filter may answer "not present" only because one of the key's
+// bits is clear. Every `return false` of MayContain sits directly behind the test of a bit of the
+// filter being zero; a "no" for any other reason (an empty index list, an early length test) is a
+// false negative for some key that was added.
+func c31NegativeOnlyForAClearBit(c *core.Ctx) {
+	fn := anchorM(c, "storage/bloom", "Bloom", "MayContain")
+	if fn == nil {
+		return
+	}
+	n := 0
+	for _, r := range core.Returns(fn) {
+		b, isC := core.ConstBool(core.RetOperand(r, 0))
+		if !isC || b {
+			continue
+		}
+		n++
+		good := false
+		if conds := core.CondsAt(r.Block()); len(conds) > 0 {
+			cd := conds[0]
+			if bo, ok := cd.V.(*ssa.BinOp); ok && (bo.Op == token.EQL && cd.Taken || bo.Op == token.NEQ && !cd.Taken) {
+				for _, side := range []ssa.Value{bo.X, bo.Y} {
+					and, isAnd := side.(*ssa.BinOp)
+					if !isAnd || and.Op != token.AND {
+						continue
+					}
+					for _, op := range []ssa.Value{and.X, and.Y} {
+						if ld, isLd := op.(*ssa.UnOp); isLd {
+							if ia, isIa := ld.X.(*ssa.IndexAddr); isIa && isFieldOf(ia.X, "filter") {
+								good = true
+							}
+						}
+					}
+				}
+			}
+		}
+		c.Check(good, "C31/negative-only-for-a-clear-bit", fmt.Sprintf("Bloom.MayContain/return-false#%d", n), r.Pos(),
+			"`false` directly behind filter[pos] & mask == 0",
+			"Bloom.MayContain answers false on a condition that is not a clear bit of the filter: some key that was added (e.g. the empty key, whose index list a helper may leave empty) is reported as absent")
+	}
+	c.Floor("C31/negative-only-for-a-clear-bit", 1)
 }
